@@ -186,7 +186,7 @@ fn check_result(what: &str, r: &Sop, n: usize, want: &Tt) -> Result<(), Fail> {
     check_structure(what, r, n, want)
 }
 
-fn run(c: &Case) -> Verdict {
+pub fn run(c: &Case) -> Verdict {
     let mut info = Info::default();
     let (s, f) = match eval(&c.e, c.n, &mut info) {
         Ok(x) => x,
@@ -306,7 +306,7 @@ pub fn def() -> PropDef {
             name: "expr",
             rule: "see property rule",
             strategy,
-            cases: (20_000, 1_500_000),
+            cases: (200_000, 3_000_000),
             exhaustive: Some(enumerate),
             exhaustive_note: "n<=2: all subsets of cubes as operands (pairs strided by 7 in quick); n=3: all lists of <=2 cubes (pairs strided by 11 in quick)",
             run,
